@@ -102,21 +102,34 @@ def merge_near(x, r, tol):
     return out
 
 
-def local_scales(xfit, ys):
+def local_scales(xfit, ys, tol=1e-9):
     """per index: the largest |y| inside the block (maximal run of equal exact fitted values) the index belongs to.
     A block's value is computed from the block's own observations, so its rounding error is relative to THEM, not to a
-    huge observation elsewhere in the sequence."""
+    huge observation elsewhere in the sequence. One exception: when a neighbouring block's exact value lies within that
+    neighbour's own rounding uncertainty (tol x its largest |y|) of this block's value, the floating-point code may pool the
+    two where exact arithmetic does not (a discrete decision taken on a rounded number); such neighbours share the larger
+    scale. Blocks further apart than that keep their own."""
     n = len(xfit)
-    out = [0.0] * n
+    blocks = []  # (start, end, value, scale)
     i = 0
     while i < n:
         j = i
         while j + 1 < n and xfit[j + 1] == xfit[i]:
             j += 1
-        m = max(abs(float(frac(v))) for v in ys[i:j + 1])
-        for k in range(i, j + 1):
-            out[k] = m
+        blocks.append([i, j, float(frac(xfit[i])), max(abs(float(frac(v))) for v in ys[i:j + 1])])
         i = j + 1
+    changed = True
+    while changed:
+        changed = False
+        for a, b in zip(blocks, blocks[1:]):
+            m = max(a[3], b[3])
+            if a[3] != b[3] and abs(a[2] - b[2]) <= tol * m:
+                a[3] = b[3] = m
+                changed = True
+    out = [0.0] * n
+    for s_, e_, _, m in blocks:
+        for k in range(s_, e_ + 1):
+            out[k] = m
     return out
 
 
@@ -140,7 +153,7 @@ def compare_xr(io, mo, exact: bool, tol=1e-9, with_r=True, scale=None, ylocal=No
             return f"block vector differs: {io['r']} vs model {mo['r']}"
         return None
     at = tol * (scale if scale else 1.0)
-    loc = local_scales(xm, ylocal) if ylocal is not None else None
+    loc = local_scales(xm, ylocal, tol) if ylocal is not None else None
     for i, (a, b) in enumerate(zip(io["x"], xm)):
         if not close(a, b, tol, at if loc is None else tol * loc[i]):
             return f"x[{i}] = {a!r} but the model gives {float(b)!r}" + ("" if loc is None else f" (tolerance {tol:g} x {loc[i]:g}, the largest |y| in its block)")
